@@ -5,3 +5,788 @@ From AN Require Import Model.Rt.
 (* ---------- Runtime::block_on ---------- *)
 Lemma block_on_output : forall pend v spawned ran, fst (block_on pend v spawned ran) = v.
 Proof. induction pend as [|n IH]; intros v spawned ran; cbn [block_on]; [reflexivity | apply IH]. Qed.
+
+(* ---------- lists, upd ---------- *)
+Lemma upd_length : forall A (f : A -> A) l k, length (upd k f l) = length l.
+Proof. induction l as [|x t IH]; intros [|k]; cbn; auto. Qed.
+
+Lemma nth_upd_same : forall A (f : A -> A) l k, nth_error (upd k f l) k = option_map f (nth_error l k).
+Proof. induction l as [|x t IH]; intros [|k]; cbn; auto. Qed.
+
+Lemma nth_upd_other : forall A (f : A -> A) l k j, j <> k -> nth_error (upd k f l) j = nth_error l j.
+Proof.
+  induction l as [|x t IH]; intros [|k] [|j] H; cbn; auto; try congruence.
+Qed.
+
+Lemma nth_upd : forall A (f : A -> A) l k j,
+  nth_error (upd k f l) j = if Nat.eqb j k then option_map f (nth_error l k) else nth_error l j.
+Proof.
+  intros. destruct (Nat.eqb_spec j k) as [->|N]; [apply nth_upd_same | apply nth_upd_other; auto].
+Qed.
+
+Lemma upd_none : forall A (f : A -> A) l k, nth_error l k = None -> upd k f l = l.
+Proof. induction l as [|x t IH]; intros [|k] H; cbn in *; auto; try discriminate. f_equal; auto. Qed.
+
+Lemma nth_app_new : forall A (l : list A) x, nth_error (l ++ [x]) (length l) = Some x.
+Proof. intros. rewrite nth_error_app2 by lia. rewrite Nat.sub_diag. reflexivity. Qed.
+
+Lemma nth_snoc : forall A (l : list A) x k y,
+  nth_error (l ++ [x]) k = Some y -> (k < length l /\ nth_error l k = Some y) \/ (k = length l /\ y = x).
+Proof.
+  intros A l x k y H. destruct (Nat.lt_ge_cases k (length l)) as [L|G].
+  - left. split; auto. rewrite nth_error_app1 in H; auto.
+  - right. rewrite nth_error_app2 in H by lia.
+    destruct (k - length l) as [|d] eqn:E; cbn in H.
+    + inversion H. split; [lia | auto].
+    + destruct d; discriminate.
+Qed.
+
+(* ---------- prefix ---------- *)
+Lemma is_prefix_spec : forall a b, is_prefix a b = true <-> exists r, b = a ++ r.
+Proof.
+  induction a as [|x a IH]; intros b; cbn.
+  - split; eauto.
+  - destruct b as [|y b].
+    + split; [discriminate | intros [r H]; discriminate].
+    + rewrite andb_true_iff, Nat.eqb_eq, IH. split.
+      * intros [-> [r ->]]. eauto.
+      * intros [r H]. inversion H. eauto.
+Qed.
+
+Lemma is_prefix_refl : forall a, is_prefix a a = true.
+Proof. intros. apply is_prefix_spec. exists []. now rewrite app_nil_r. Qed.
+
+Lemma is_prefix_trans : forall a b c, is_prefix a b = true -> is_prefix b c = true -> is_prefix a c = true.
+Proof.
+  intros a b c H1 H2. apply is_prefix_spec in H1 as [r1 ->]. apply is_prefix_spec in H2 as [r2 ->].
+  apply is_prefix_spec. exists (r1 ++ r2). now rewrite app_assoc.
+Qed.
+
+Lemma is_prefix_app : forall a r, is_prefix a (a ++ r) = true.
+Proof. intros. apply is_prefix_spec. eauto. Qed.
+
+(* ---------- commands: Stop, the commands before the first Stop, task ids ---------- *)
+Definition is_stop (c : cmd) : bool := match c with Stop => true | _ => false end.
+Definition has_stop (l : list cmd) : bool := existsb is_stop l.
+Fixpoint pre_stop (l : list cmd) : list cmd :=
+  match l with
+  | [] => []
+  | Stop :: _ => []
+  | c :: t => c :: pre_stop t
+  end.
+Fixpoint execs (l : list cmd) : list nat :=
+  match l with
+  | [] => []
+  | Stop :: t => execs t
+  | Execute x :: t => tid x :: execs t
+  end.
+
+Lemma has_stop_app : forall a b, has_stop (a ++ b) = has_stop a || has_stop b.
+Proof. intros. unfold has_stop. apply existsb_app. Qed.
+
+Lemma execs_app : forall a b, execs (a ++ b) = execs a ++ execs b.
+Proof. induction a as [|[|x] a IH]; intros; cbn; auto. now rewrite IH. Qed.
+
+Lemma pre_stop_app_stop : forall a b, has_stop a = true -> pre_stop (a ++ b) = pre_stop a.
+Proof.
+  induction a as [|[|x] a IH]; intros b H; cbn in *; auto; try discriminate. f_equal. auto.
+Qed.
+
+Lemma pre_stop_app_nostop : forall a b, has_stop a = false -> pre_stop (a ++ b) = a ++ pre_stop b.
+Proof.
+  induction a as [|[|x] a IH]; intros b H; cbn in *; auto; try discriminate. f_equal. auto.
+Qed.
+
+Lemma pre_stop_nostop : forall a, has_stop a = false -> pre_stop a = a.
+Proof. intros. rewrite <- (app_nil_r a) at 1. rewrite pre_stop_app_nostop; auto. cbn. apply app_nil_r. Qed.
+
+Lemma pre_stop_prefix : forall a, exists r, a = pre_stop a ++ r.
+Proof.
+  induction a as [|[|x] a [r IH]]; cbn.
+  - exists []. auto.
+  - eexists. reflexivity.
+  - exists r. now rewrite <- IH.
+Qed.
+
+Lemma execs_pre_stop_prefix : forall a, is_prefix (execs (pre_stop a)) (execs a) = true.
+Proof.
+  intros. destruct (pre_stop_prefix a) as [r H]. rewrite H at 2. rewrite execs_app. apply is_prefix_app.
+Qed.
+
+Lemma execs_lt : forall l n, (forall t, In (Execute t) l -> tid t < n) -> forall i, In i (execs l) -> i < n.
+Proof.
+  induction l as [|[|x] l IH]; intros n H i Hi; cbn in *; try contradiction.
+  - apply (IH n); auto.
+  - destruct Hi as [<-|Hi]; [apply H; auto | apply (IH n); auto].
+Qed.
+
+Lemma execs_in : forall l i, In i (execs l) -> exists t, In (Execute t) l /\ tid t = i.
+Proof.
+  induction l as [|[|x] l IH]; intros i Hi; cbn in *; try contradiction.
+  - destruct (IH i Hi) as (t & A & B). eauto.
+  - destruct Hi as [<-|Hi]; [eauto | destruct (IH i Hi) as (t & A & B); eauto].
+Qed.
+
+(* ---------- per-arbiter invariant (FIFO core) ---------- *)
+Definition started (a : arb) : list nat := tids (alog a).
+
+Record AInv (n : nat) (a : arb) : Prop := {
+  ai_run : ph a = Running -> exists dn, hist a = dn ++ chan a /\ has_stop dn = false
+                                     /\ execs dn = started a ++ map tid (lq a);
+  ai_end : ph a <> Running -> is_prefix (started a) (execs (pre_stop (hist a))) = true /\ has_stop (hist a) = true;
+  ai_lt : forall t, In (Execute t) (hist a) -> tid t < n;
+  ai_inj : forall t t', In (Execute t) (hist a) -> In (Execute t') (hist a) -> tid t = tid t' -> t = t';
+  ai_lq : forall t, In t (lq a) -> In (Execute t) (hist a);
+  ai_self : forall t, In (Execute t) (hist a) -> tkind t = KStopSelf -> In (tid t) (started a) -> has_stop (hist a) = true;
+  ai_id : forall e, In e (alog a) -> e_thr e = a_thr a /\ e_sys e = a_sys a
+}.
+
+Lemma AInv_mono : forall n n' a, n <= n' -> AInv n a -> AInv n' a.
+Proof.
+  intros n n' a L [H1 H2 H3 H4 H5 H6 H7]. constructor; auto. intros t Ht. specialize (H3 t Ht). lia.
+Qed.
+
+Lemma AInv_new : forall n thr sy pre, AInv n (mkArb [] [] Running [] thr sy pre []).
+Proof.
+  constructor; cbn; try (intros; contradiction); try congruence.
+  intros _. exists []. auto.
+Qed.
+
+Lemma push_dropped : forall c a, ph a = Dropped -> push c a = a.
+Proof. intros c a H. unfold push. now rewrite H. Qed.
+
+Lemma push_live : forall c a, ph a <> Dropped ->
+  push c a = mkArb (chan a ++ [c]) (lq a) (ph a) (alog a) (a_thr a) (a_sys a) (a_pre a) (hist a ++ [c]).
+Proof. intros c a H. unfold push. destruct (ph a); cbn; congruence. Qed.
+
+Lemma ph_push : forall c a, ph (push c a) = ph a.
+Proof. intros. unfold push. destruct (ph a) eqn:E; cbn; auto. Qed.
+Lemma alog_push : forall c a, alog (push c a) = alog a.
+Proof. intros. unfold push. destruct (ph a) eqn:E; cbn; auto. Qed.
+
+Lemma AInv_push_stop : forall n a, AInv n a -> AInv n (push Stop a).
+Proof.
+  intros n a I.
+  destruct (ph a) eqn:P; [ | | rewrite push_dropped by auto; exact I ]; destruct I as [H1 H2 H3 H4 H5 H6 H7].
+  - rewrite push_live by congruence. rewrite P. constructor; cbn; unfold started in *; cbn.
+    + intros _. destruct (H1 P) as (dn & E1 & E2 & E3). exists dn. rewrite E1, app_assoc. auto.
+    + congruence.
+    + intros t Ht. apply in_app_or in Ht as [Ht|[Ht|[]]]; [auto | discriminate].
+    + intros t t' Ht Ht'. apply in_app_or in Ht as [Ht|[Ht|[]]]; [|discriminate].
+      apply in_app_or in Ht' as [Ht'|[Ht'|[]]]; [auto | discriminate].
+    + intros t Ht. apply in_or_app. left. auto.
+    + intros. rewrite has_stop_app. cbn. apply orb_true_r.
+    + auto.
+  - rewrite push_live by congruence. rewrite P. constructor; cbn; unfold started in *; cbn.
+    + congruence.
+    + intros _. destruct H2 as [E1 E2]; [congruence|]. rewrite pre_stop_app_stop by auto. rewrite has_stop_app, E2. auto.
+    + intros t Ht. apply in_app_or in Ht as [Ht|[Ht|[]]]; [auto | discriminate].
+    + intros t t' Ht Ht'. apply in_app_or in Ht as [Ht|[Ht|[]]]; [|discriminate].
+      apply in_app_or in Ht' as [Ht'|[Ht'|[]]]; [auto | discriminate].
+    + intros t Ht. apply in_or_app. left. auto.
+    + intros. rewrite has_stop_app. cbn. apply orb_true_r.
+    + auto.
+Qed.
+
+Lemma AInv_push_exec : forall n a kd, AInv n a -> AInv (S n) (push (Execute (mkTask n kd)) a).
+Proof.
+  intros n a kd I. destruct (ph a) eqn:P; [ | | rewrite push_dropped by auto; eapply AInv_mono; [|eauto]; lia ].
+  - destruct I as [H1 H2 H3 H4 H5 H6 H7].
+    rewrite push_live by congruence. rewrite P. constructor; cbn; unfold started in *; cbn.
+    + intros _. destruct (H1 P) as (dn & E1 & E2 & E3). exists dn. rewrite E1, app_assoc. auto.
+    + congruence.
+    + intros t Ht. apply in_app_or in Ht as [Ht|[Ht|[]]]; [specialize (H3 t Ht); lia | inversion Ht; cbn; lia].
+    + intros t t' Ht Ht' E. apply in_app_or in Ht as [Ht|[Ht|[]]]; apply in_app_or in Ht' as [Ht'|[Ht'|[]]].
+      * auto.
+      * inversion Ht'; subst t'. specialize (H3 t Ht). cbn in E. lia.
+      * inversion Ht; subst t. specialize (H3 t' Ht'). cbn in E. lia.
+      * congruence.
+    + intros t Ht. apply in_or_app. left. auto.
+    + intros t Ht K S0. apply in_app_or in Ht as [Ht|[Ht|[]]].
+      * rewrite has_stop_app. rewrite (H6 t Ht K S0). auto.
+      * inversion Ht; subst t. cbn in S0.
+        destruct (H1 P) as (dn & E1 & E2 & E3).
+        assert (In n (execs (hist a))) as Hin.
+        { rewrite E1, execs_app, E3. apply in_or_app. left. apply in_or_app. left. exact S0. }
+        exfalso. apply (execs_lt _ _ H3) in Hin. lia.
+    + auto.
+  - destruct I as [H1 H2 H3 H4 H5 H6 H7].
+    rewrite push_live by congruence. rewrite P. constructor; cbn; unfold started in *; cbn.
+    + congruence.
+    + intros _. destruct H2 as [E1 E2]; [congruence|]. rewrite pre_stop_app_stop by auto. rewrite has_stop_app, E2. auto.
+    + intros t Ht. apply in_app_or in Ht as [Ht|[Ht|[]]]; [specialize (H3 t Ht); lia | inversion Ht; cbn; lia].
+    + intros t t' Ht Ht' E. apply in_app_or in Ht as [Ht|[Ht|[]]]; apply in_app_or in Ht' as [Ht'|[Ht'|[]]].
+      * auto.
+      * inversion Ht'; subst t'. specialize (H3 t Ht). cbn in E. lia.
+      * inversion Ht; subst t. specialize (H3 t' Ht'). cbn in E. lia.
+      * congruence.
+    + intros t Ht. apply in_or_app. left. auto.
+    + intros. destruct H2 as [E1 E2]; [congruence|]. rewrite has_stop_app, E2. auto.
+    + auto.
+Qed.
+
+Lemma AInv_runner : forall n a, AInv n a -> AInv n (runner a).
+Proof.
+  intros n a I. unfold runner. destruct (ph a) eqn:P; auto. destruct (chan a) as [|[|t] c] eqn:C; auto;
+    destruct I as [H1 H2 H3 H4 H5 H6 H7]; destruct (H1 P) as (dn & E1 & E2 & E3); rewrite C in E1.
+  - (* Stop: the loop ends *)
+    constructor; cbn; unfold started in *; cbn; auto; try congruence.
+    intros _. rewrite E1. rewrite pre_stop_app_nostop by auto. cbn. rewrite app_nil_r, E3.
+    split; [apply is_prefix_app|]. rewrite has_stop_app. cbn. apply orb_true_r.
+  - (* Execute: spawn_local *)
+    constructor; cbn; unfold started in *; cbn; auto; try congruence.
+    + intros _. exists (dn ++ [Execute t]). rewrite E1, <- app_assoc. cbn. split; auto. split.
+      * rewrite has_stop_app, E2. reflexivity.
+      * rewrite execs_app, E3, map_app. cbn. now rewrite app_assoc.
+    + intros x Hx. apply in_app_or in Hx as [Hx|[<-|[]]]; auto. rewrite E1. apply in_or_app. right. left. auto.
+Qed.
+
+Lemma AInv_drop : forall n a, ph a = Ended -> AInv n a -> AInv n (drop_arb a).
+Proof.
+  intros n a P [H1 H2 H3 H4 H5 H6 H7]. unfold drop_arb.
+  constructor; cbn; unfold started in *; cbn; auto; try congruence.
+  intros _. apply H2. congruence.
+Qed.
+
+Lemma tids_app : forall a b, tids (a ++ b) = tids a ++ tids b.
+Proof. intros. unfold tids. apply map_app. Qed.
+
+(* starting the oldest spawned task *)
+Lemma AInv_start_plain : forall n a t q, ph a = Running -> lq a = t :: q -> tkind t <> KStopSelf ->
+  AInv n a -> AInv n (start_task a).
+Proof.
+  intros n a t q P L K [H1 H2 H3 H4 H5 H6 H7]. destruct (H1 P) as (dn & E1 & E2 & E3).
+  unfold start_task. rewrite P, L.
+  constructor; cbn; unfold started in *; cbn; try congruence; auto.
+  - intros _. exists dn. split; auto. split; auto.
+    rewrite E3, L, tids_app. cbn. now rewrite <- app_assoc.
+  - intros x Hx. apply H5. rewrite L. right. auto.
+  - intros x Hx Kx Sx. rewrite tids_app in Sx. apply in_app_or in Sx as [Sx|[Sx|[]]]; [eauto|].
+    cbn in Sx. assert (t = x) as <-; [|congruence].
+    apply H4; auto. apply H5. rewrite L. left. auto.
+  - intros e He. apply in_app_or in He as [He|[<-|[]]]; auto.
+Qed.
+
+(* ... and, if it is a self-stopping one, Arbiter::current().stop() in the same step *)
+Lemma AInv_start_self : forall n a t q, ph a = Running -> lq a = t :: q ->
+  AInv n a -> AInv n (push Stop (start_task a)).
+Proof.
+  intros n a t q P L [H1 H2 H3 H4 H5 H6 H7]. destruct (H1 P) as (dn & E1 & E2 & E3).
+  unfold start_task. rewrite P, L. rewrite push_live by (cbn; congruence). cbn.
+  constructor; cbn; unfold started in *; cbn; try congruence.
+  - intros _. exists dn. rewrite E1, app_assoc. split; auto. split; auto.
+    rewrite E3, L, tids_app. cbn. now rewrite <- app_assoc.
+  - intros x Hx. apply in_app_or in Hx as [Hx|[Hx|[]]]; [auto|discriminate].
+  - intros x x' Hx Hx'. apply in_app_or in Hx as [Hx|[Hx|[]]]; [|discriminate].
+    apply in_app_or in Hx' as [Hx'|[Hx'|[]]]; [auto|discriminate].
+  - intros x Hx. apply in_or_app. left. apply H5. rewrite L. right. auto.
+  - intros. rewrite has_stop_app. cbn. apply orb_true_r.
+  - intros e He. apply in_app_or in He as [He|[<-|[]]]; auto.
+Qed.
+
+(* ---------- iterated stop (SystemController's Exit), registry helpers ---------- *)
+Lemma iter_succ_r : forall A (f : A -> A) n x, Nat.iter (S n) f x = Nat.iter n f (f x).
+Proof. intros A f n. induction n as [|n IH]; intros x; [reflexivity|]. cbn [Nat.iter nat_rect] in *. now rewrite IH. Qed.
+
+Lemma stop_all_nth : forall ids l k,
+  nth_error (stop_all ids l) k = option_map (Nat.iter (count_occ Nat.eq_dec ids k) (push Stop)) (nth_error l k).
+Proof.
+  induction ids as [|i t IH]; intros l k; cbn [stop_all count_occ].
+  - cbn. destruct (nth_error l k); reflexivity.
+  - rewrite IH, nth_upd. destruct (Nat.eq_dec i k) as [->|N].
+    + rewrite Nat.eqb_refl. destruct (nth_error l k); cbn [option_map]; auto.
+      f_equal. symmetry. apply iter_succ_r.
+    + destruct (Nat.eqb_spec k i); [congruence | reflexivity].
+Qed.
+
+Lemma stop_all_length : forall ids l, length (stop_all ids l) = length l.
+Proof. induction ids as [|i t IH]; intros; cbn; auto. now rewrite IH, upd_length. Qed.
+
+Lemma iter_push_inv : forall (P : arb -> Prop), (forall a, P a -> P (push Stop a)) ->
+  forall n a, P a -> P (Nat.iter n (push Stop) a).
+Proof. intros P H n. induction n as [|n IH]; intros a Pa; [exact Pa|]. cbn [Nat.iter nat_rect]. apply H. apply IH. exact Pa. Qed.
+
+Lemma has_stop_push_stop : forall a, ph a <> Dropped -> has_stop (chan (push Stop a)) = true.
+Proof. intros a H. rewrite push_live by auto. cbn. rewrite has_stop_app. cbn. apply orb_true_r. Qed.
+
+Lemma lq_push : forall c a, lq (push c a) = lq a.
+Proof. intros. unfold push. destruct (ph a) eqn:E; cbn; auto. Qed.
+Lemma pre_push : forall c a, a_pre (push c a) = a_pre a.
+Proof. intros. unfold push. destruct (ph a) eqn:E; cbn; auto. Qed.
+Lemma thr_push : forall c a, a_thr (push c a) = a_thr a.
+Proof. intros. unfold push. destruct (ph a) eqn:E; cbn; auto. Qed.
+Lemma sys_push : forall c a, a_sys (push c a) = a_sys a.
+Proof. intros. unfold push. destruct (ph a) eqn:E; cbn; auto. Qed.
+Lemma has_stop_chan_push : forall c a, has_stop (chan a) = true -> has_stop (chan (push c a)) = true.
+Proof.
+  intros c a H. unfold push. destruct (ph a) eqn:E; cbn; auto; rewrite has_stop_app, H; auto.
+Qed.
+
+(* an arbiter that is bound to end: it has ended, or Stop is in its channel *)
+Definition stopping (a : arb) : Prop := ph a <> Running \/ has_stop (chan a) = true.
+
+Lemma stopping_push : forall c a, stopping a -> stopping (push c a).
+Proof. intros c a [H|H]; [left; now rewrite ph_push | right; now apply has_stop_chan_push]. Qed.
+
+Lemma stopping_iter : forall n a, stopping a -> stopping (Nat.iter n (push Stop) a).
+Proof. intros n a. apply iter_push_inv. intros. now apply stopping_push. Qed.
+
+Lemma stopping_push_stop : forall a, stopping (push Stop a).
+Proof.
+  intros a. destruct (ph a) eqn:P.
+  - right. apply has_stop_push_stop. congruence.
+  - left. rewrite ph_push. congruence.
+  - left. rewrite ph_push. congruence.
+Qed.
+
+Lemma stopping_iter_pos : forall n a, n > 0 -> stopping (Nat.iter n (push Stop) a).
+Proof.
+  intros [|n] a H; [lia|]. rewrite iter_succ_r. apply stopping_iter. apply stopping_push_stop.
+Qed.
+
+Lemma stopping_runner : forall a, stopping a -> stopping (runner a).
+Proof.
+  intros a [H|H]; unfold runner; destruct (ph a) eqn:P; try (left; congruence).
+  destruct (chan a) as [|[|t] c]; cbn in *; try discriminate.
+  - left. cbn. congruence.
+  - right. cbn. auto.
+Qed.
+
+Lemma stopping_start : forall a, stopping a -> stopping (start_task a).
+Proof.
+  intros a [H|H]; unfold start_task; destruct (ph a) eqn:P; try (left; congruence).
+  destruct (lq a); [right; auto | right; cbn; auto].
+Qed.
+
+Lemma stopping_drop : forall a, stopping (drop_arb a).
+Proof. intros. left. cbn. congruence. Qed.
+
+(* system commands before the first Exit *)
+Fixpoint pre_exit (q : list syscmd) : list syscmd :=
+  match q with
+  | [] => []
+  | Exit _ :: _ => []
+  | c :: t => c :: pre_exit t
+  end.
+Definition has_exit (q : list syscmd) : bool := existsb is_exit q.
+
+Lemma pre_exit_snoc_in : forall q c x, In x (pre_exit q) -> In x (pre_exit (q ++ [c])).
+Proof.
+  induction q as [|[e|r|d] q IH]; intros c x H; cbn in *; try contradiction;
+    (destruct H as [H|H]; [left; auto | right; auto]).
+Qed.
+
+Lemma pre_exit_snoc_new : forall q c, has_exit q = false -> is_exit c = false -> In c (pre_exit (q ++ [c])).
+Proof.
+  induction q as [|[e|r|d] q IH]; intros c H Hc; cbn in *; try discriminate.
+  - destruct c; cbn in *; try discriminate; auto.
+  - right. auto.
+  - right. auto.
+Qed.
+
+Lemma has_exit_app : forall a b, has_exit (a ++ b) = has_exit a || has_exit b.
+Proof. intros. unfold has_exit. apply existsb_app. Qed.
+
+Lemma pre_exit_in : forall q x, In x (pre_exit q) -> In x q.
+Proof.
+  induction q as [|[e|r|d] q IH]; intros x H; cbn in *; try contradiction;
+    (destruct H as [H|H]; [left; auto | right; auto]).
+Qed.
+
+Lemma in_remove_nat : forall x y l, In y (remove_nat x l) <-> In y l /\ y <> x.
+Proof.
+  induction l as [|z l IH]; cbn; [tauto|].
+  destruct (Nat.eqb_spec x z) as [->|N]; cbn; rewrite IH; intuition congruence.
+Qed.
+
+(* ---------- the global invariant of the transition system ---------- *)
+Definition doomed (s : st) (a : arb) : Prop :=
+  stopping a \/ (alive s = true /\ exitc s = None /\ has_exit (sysq s) = true).
+
+Definition arb_ok (n k : nat) (a : arb) : Prop := AInv n a /\ a_thr a = 2 + k /\ a_sys a = 0.
+
+Definition reg_ok (rg : list nat) (q : list syscmd) (k : nat) (a : arb) : Prop :=
+  a_pre a = true ->
+  ph a = Dropped \/ ((In k rg \/ In (Register k) (pre_exit q)) /\ ~ In (Deregister k) q).
+
+Record GInv (s : st) : Prop := {
+  g_arb : forall k a, nth_error (arbs s) k = Some a -> arb_ok (pc s) k a;
+  g_iss : issued s = false -> alive s = true /\ exitc s = None /\ has_exit (sysq s) = false;
+  g_alive : alive s = false -> exitc s <> None;
+  g_ret : ret s = (if alive s then None else exitc s);
+  g_reg : forall k a, nth_error (arbs s) k = Some a -> reg_ok (reg s) (sysq s) k a;
+  g_doom : forall k a, nth_error (arbs s) k = Some a -> a_pre a = true -> issued s = true -> doomed s a;
+  g_pc : pc s = length (olog s);
+  g_bound : forall j, In (Deregister j) (sysq s) -> j < length (arbs s)
+}.
+
+Lemma GInv_init : forall ops, GInv (init ops).
+Proof.
+  intros. constructor; cbn; auto; try discriminate; try (intros [|k] a H; discriminate). intros j [].
+Qed.
+
+(* what a local move of one arbiter (or a send to it) must respect *)
+Record local_ok (n n' : nat) (a a' : arb) : Prop := {
+  lo_inv : AInv n a -> AInv n' a';
+  lo_thr : a_thr a' = a_thr a;
+  lo_sys : a_sys a' = a_sys a;
+  lo_pre : a_pre a' = a_pre a;
+  lo_drop : ph a = Dropped -> ph a' = Dropped;
+  lo_stopping : stopping a -> stopping a'
+}.
+
+Lemma local_ok_refl : forall n n' a, n <= n' -> local_ok n n' a a.
+Proof. intros. constructor; auto. intros. eapply AInv_mono; eauto. Qed.
+
+Lemma local_ok_push_stop : forall n a, local_ok n n a (push Stop a).
+Proof.
+  intros. constructor.
+  - apply AInv_push_stop.
+  - apply thr_push.
+  - apply sys_push.
+  - apply pre_push.
+  - intros. now rewrite ph_push.
+  - apply stopping_push.
+Qed.
+
+Lemma local_ok_push_exec : forall n a kd, local_ok n (S n) a (push (Execute (mkTask n kd)) a).
+Proof.
+  intros. constructor.
+  - apply AInv_push_exec.
+  - apply thr_push.
+  - apply sys_push.
+  - apply pre_push.
+  - intros. now rewrite ph_push.
+  - apply stopping_push.
+Qed.
+
+Lemma local_ok_runner : forall n a, local_ok n n a (runner a).
+Proof.
+  intros. constructor; try apply AInv_runner; try apply stopping_runner;
+    unfold runner; destruct (ph a) eqn:P; auto; try congruence; destruct (chan a) as [|[|t] c]; auto; congruence.
+Qed.
+
+Lemma local_ok_trans : forall n1 n2 n3 a b c, local_ok n1 n2 a b -> local_ok n2 n3 b c -> local_ok n1 n3 a c.
+Proof.
+  intros n1 n2 n3 a b c [A1 A2 A3 A4 A5 A6] [B1 B2 B3 B4 B5 B6]. constructor; auto; congruence.
+Qed.
+
+(* frame: only arbiter k moves, by a local_ok move; the system side does not change *)
+Lemma GInv_local : forall s s' k f,
+  GInv s ->
+  arbs s' = upd k f (arbs s) -> reg s' = reg s -> sysq s' = sysq s -> exitc s' = exitc s -> alive s' = alive s ->
+  ret s' = ret s -> issued s' = issued s -> pc s' = length (olog s') ->
+  (forall a, nth_error (arbs s) k = Some a -> local_ok (pc s) (pc s') a (f a)) -> pc s <= pc s' ->
+  GInv s'.
+Proof.
+  intros s s' k f [G1 G2 G3 G4 G5 G6 G7 G8] EA ER EQ EX EL ET EI EP LO LE.
+  constructor; rewrite ?ER, ?EQ, ?EX, ?EL, ?ET, ?EI; auto.
+  - intros j a H. rewrite EA, nth_upd in H. destruct (Nat.eqb_spec j k) as [->|N].
+    + destruct (nth_error (arbs s) k) as [a0|] eqn:E; [|discriminate]. inversion H; subst a.
+      destruct (G1 k a0 E) as (I1 & I2 & I3). destruct (LO a0 eq_refl) as [L1 L2 L3 L4 L5 L6].
+      unfold arb_ok. split; [auto | split; congruence].
+    + destruct (G1 j a H) as (I1 & I2 & I3). unfold arb_ok. split; [eapply AInv_mono; eauto | split; auto].
+  - intros j a H. rewrite EA, nth_upd in H. destruct (Nat.eqb_spec j k) as [->|N]; [|apply G5; auto].
+    destruct (nth_error (arbs s) k) as [a0|] eqn:E; [|discriminate]. inversion H; subst a.
+    destruct (LO a0 eq_refl) as [L1 L2 L3 L4 L5 L6]. intros Hp. rewrite L4 in Hp.
+    destruct (G5 k a0 E Hp) as [D|D]; [left; auto | right; auto].
+  - intros j a H Hp Hi. unfold doomed. rewrite EL, EX, EQ.
+    rewrite EA, nth_upd in H. destruct (Nat.eqb_spec j k) as [->|N]; [|apply (G6 j); auto].
+    destruct (nth_error (arbs s) k) as [a0|] eqn:E; [|discriminate]. inversion H; subst a.
+    destruct (LO a0 eq_refl) as [L1 L2 L3 L4 L5 L6]. rewrite L4 in Hp.
+    destruct (G6 k a0 E Hp Hi) as [D|D]; [left; auto | right; auto].
+  - rewrite EA, upd_length. auto.
+Qed.
+
+Lemma upd_upd : forall A (f g : A -> A) l k, upd k g (upd k f l) = upd k (fun x => g (f x)) l.
+Proof. induction l as [|x t IH]; intros [|k]; cbn; auto. now rewrite IH. Qed.
+
+Lemma stopping_start_push : forall a, stopping (push Stop (start_task a)).
+Proof. intros. apply stopping_push_stop. Qed.
+
+Lemma start_fields : forall a, a_thr (start_task a) = a_thr a /\ a_sys (start_task a) = a_sys a
+  /\ a_pre (start_task a) = a_pre a /\ ph (start_task a) = ph a.
+Proof. intros. unfold start_task. destruct (ph a) eqn:P; auto. destruct (lq a); cbn; auto. Qed.
+
+Lemma local_ok_start_plain : forall n a t q, ph a = Running -> lq a = t :: q -> tkind t <> KStopSelf ->
+  local_ok n n a (start_task a).
+Proof.
+  intros n a t q P L K. destruct (start_fields a) as (F1 & F2 & F3 & F4). constructor; auto.
+  - eapply AInv_start_plain; eauto.
+  - congruence.
+  - apply stopping_start.
+Qed.
+
+Lemma local_ok_start_self : forall n a t q, ph a = Running -> lq a = t :: q ->
+  local_ok n n a (push Stop (start_task a)).
+Proof.
+  intros n a t q P L. destruct (start_fields a) as (F1 & F2 & F3 & F4). constructor.
+  - eapply AInv_start_self; eauto.
+  - now rewrite thr_push.
+  - now rewrite sys_push.
+  - now rewrite pre_push.
+  - congruence.
+  - intros _. apply stopping_push_stop.
+Qed.
+
+Lemma GInv_runner : forall s k, GInv s -> GInv (step s (LRunner k)).
+Proof.
+  intros s k G. cbn [step]. eapply (GInv_local s _ k runner); eauto; cbn; auto.
+  - apply G.
+  - intros. apply local_ok_runner.
+Qed.
+
+(* sys_send appends only while the system thread is inside run *)
+Lemma sys_send_cases : forall c s, (alive s = true /\ sys_send c s = sysq s ++ [c]) \/ (alive s = false /\ sys_send c s = sysq s).
+Proof. intros. unfold sys_send. destruct (alive s); auto. Qed.
+
+Lemma reg_ok_send : forall rg q k a c, reg_ok rg q k a ->
+  (c = Deregister k -> ph a = Dropped) -> reg_ok rg (q ++ [c]) k a.
+Proof.
+  intros rg q k a c R HC Hp. destruct (R Hp) as [D|[I N]]; [left; auto|].
+  assert (In k rg \/ In (Register k) (pre_exit (q ++ [c]))) as I'.
+  { destruct I as [I|I]; [left; auto | right; now apply pre_exit_snoc_in]. }
+  destruct c as [e|r|d].
+  - right. split; auto. intros X. apply in_app_or in X as [X|[X|[]]]; [auto | discriminate].
+  - right. split; auto. intros X. apply in_app_or in X as [X|[X|[]]]; [auto | discriminate].
+  - destruct (Nat.eq_dec d k) as [->|ND]; [left; auto|].
+    right. split; auto. intros X. apply in_app_or in X as [X|[X|[]]]; [auto | congruence].
+Qed.
+
+Lemma reg_ok_sys_send : forall s k a c, reg_ok (reg s) (sysq s) k a ->
+  (c = Deregister k -> ph a = Dropped) -> reg_ok (reg s) (sys_send c s) k a.
+Proof.
+  intros s k a c R HC. destruct (sys_send_cases c s) as [[_ ->]|[_ ->]]; auto. now apply reg_ok_send.
+Qed.
+
+(* frame: arbiter k moves locally and one command is sent to the system (not a Register) *)
+Lemma GInv_local_send : forall s s' k f c,
+  GInv s ->
+  arbs s' = upd k f (arbs s) -> reg s' = reg s -> sysq s' = sys_send c s -> exitc s' = exitc s -> alive s' = alive s ->
+  ret s' = ret s -> issued s' = (issued s || is_exit c) -> pc s' = length (olog s') ->
+  (forall a, nth_error (arbs s) k = Some a -> local_ok (pc s) (pc s') a (f a)) -> pc s <= pc s' ->
+  (forall j, c = Deregister j -> j = k /\ k < length (arbs s) /\ forall a, nth_error (arbs s) k = Some a -> ph (f a) = Dropped) ->
+  (forall j, c <> Register j) ->
+  GInv s'.
+Proof.
+  intros s s' k f c [G1 G2 G3 G4 G5 G6 G7 G8] EA ER EQ EX EL ET EI EP LO LE HD HR.
+  constructor; rewrite ?ER, ?EQ, ?EX, ?EL, ?ET; auto.
+  - intros j a H. rewrite EA, nth_upd in H. destruct (Nat.eqb_spec j k) as [->|N].
+    + destruct (nth_error (arbs s) k) as [a0|] eqn:E; [|discriminate]. inversion H; subst a.
+      destruct (G1 k a0 E) as (I1 & I2 & I3). destruct (LO a0 eq_refl) as [L1 L2 L3 L4 L5 L6].
+      unfold arb_ok. split; [auto | split; congruence].
+    + destruct (G1 j a H) as (I1 & I2 & I3). unfold arb_ok. split; [eapply AInv_mono; eauto | split; auto].
+  - rewrite EI. intros Hi. apply orb_false_iff in Hi as [Hi Hc]. destruct (G2 Hi) as (A1 & A2 & A3).
+    repeat split; auto. unfold sys_send. rewrite A1, has_exit_app, A3. cbn. now rewrite Hc.
+  - intros j a H. rewrite EA, nth_upd in H. destruct (Nat.eqb_spec j k) as [->|N].
+    + destruct (nth_error (arbs s) k) as [a0|] eqn:E; [|discriminate]. inversion H; subst a.
+      destruct (LO a0 eq_refl) as [L1 L2 L3 L4 L5 L6].
+      apply reg_ok_sys_send.
+      * intros Hp. rewrite L4 in Hp. destruct (G5 k a0 E Hp) as [D|D]; [left; auto | right; auto].
+      * intros Hc. destruct (HD k Hc) as (_ & _ & HD'). auto.
+    + apply reg_ok_sys_send; [apply G5; auto|]. intros Hc. destruct (HD j Hc) as (HD' & _). congruence.
+  - rewrite EI. intros j a H Hp Hi. unfold doomed. rewrite EL, EX, EQ.
+    assert (exists a0, nth_error (arbs s) j = Some a0 /\ a_pre a0 = true /\ (stopping a0 -> stopping a)) as (a0 & E0 & P0 & S0).
+    { rewrite EA, nth_upd in H. destruct (Nat.eqb_spec j k) as [->|N]; [|eauto].
+      destruct (nth_error (arbs s) k) as [a0|] eqn:E; [|discriminate]. inversion H; subst a.
+      destruct (LO a0 eq_refl) as [L1 L2 L3 L4 L5 L6]. exists a0. rewrite <- L4. auto. }
+    destruct (issued s) eqn:Is.
+    + destruct (G6 j a0 E0 P0 eq_refl) as [D|(D1 & D2 & D3)]; [left; auto|]. right. repeat split; auto.
+      unfold sys_send. rewrite D1, has_exit_app, D3. auto.
+    + cbn in Hi. destruct (G2 eq_refl) as (A1 & A2 & A3). right. repeat split; auto.
+      unfold sys_send. rewrite A1, has_exit_app. cbn. rewrite Hi. apply orb_true_r.
+  - rewrite EA, upd_length. intros j Hj. destruct (sys_send_cases c s) as [[_ Es]|[_ Es]]; rewrite Es in Hj; auto.
+    apply in_app_or in Hj as [Hj|[Hj|[]]]; auto. destruct (HD j Hj) as (-> & B & _). auto.
+Qed.
+
+Lemma upd_id : forall A (l : list A) k, upd k (fun x => x) l = l.
+Proof. induction l as [|x t IH]; intros [|k]; cbn; auto. now rewrite IH. Qed.
+
+Lemma GInv_task : forall s k, GInv s -> GInv (step s (LTask k)).
+Proof.
+  intros s k G. cbn [step]. unfold task_step.
+  destruct (nth_error (arbs s) k) as [a|] eqn:E; auto.
+  destruct (ph a) eqn:P; auto. destruct (lq a) as [|t q] eqn:L; auto.
+  destruct (tkind t) eqn:K.
+  1,2,3: eapply (GInv_local s _ k start_task); eauto; cbn; try apply G; auto;
+    intros a' E'; rewrite E in E'; inversion E'; subst a'; eapply local_ok_start_plain; eauto; congruence.
+  - eapply (GInv_local_send s _ k start_task (Exit c)); eauto; cbn; try apply G; auto.
+    + now rewrite orb_true_r.
+    + intros a' E'; rewrite E in E'; inversion E'; subst a'; eapply local_ok_start_plain; eauto; congruence.
+    + intros j Hj; discriminate.
+    + intros j Hj; discriminate.
+  - rewrite upd_upd. eapply (GInv_local s _ k (fun x => push Stop (start_task x))); eauto; cbn; try apply G; auto.
+    intros a' E'; rewrite E in E'; inversion E'; subst a'; eapply local_ok_start_self; eauto.
+Qed.
+
+Lemma GInv_drop : forall s k, GInv s -> GInv (step s (LDrop k)).
+Proof.
+  intros s k G. cbn [step]. unfold drop_step.
+  destruct (nth_error (arbs s) k) as [a|] eqn:E; auto. destruct (ph a) eqn:P; auto.
+  eapply (GInv_local_send s _ k drop_arb (Deregister k)); eauto; cbn; try apply G; auto.
+  - now rewrite orb_false_r.
+  - intros a' E'; rewrite E in E'; inversion E'; subst a'. constructor; cbn; auto.
+    + now apply AInv_drop.
+    + intros. apply stopping_drop.
+  - intros j Hj. inversion Hj. subst j. split; auto. split; [apply nth_error_Some; congruence|].
+    intros a' E'. reflexivity.
+  - intros j Hj; discriminate.
+Qed.
+
+Lemma GInv_sysret : forall s, GInv s -> GInv (step s LSysRet).
+Proof.
+  intros s G. cbn [step]. unfold sys_ret. destruct (alive s) eqn:A; auto. destruct (exitc s) as [c|] eqn:X; auto.
+  destruct G as [G1 G2 G3 G4 G5 G6 G7 G8]. constructor; cbn; auto.
+  - intros Hi. destruct (G2 Hi) as (_ & B & _). congruence.
+  - intros _. congruence.
+  - intros k a H Hp Hi. destruct (G6 k a H Hp Hi) as [D|(_ & D & _)]; [left; auto | congruence].
+Qed.
+
+Lemma arb_ok_iter : forall n k m a, arb_ok n k a -> arb_ok n k (Nat.iter m (push Stop) a).
+Proof.
+  intros n k m a. apply iter_push_inv. intros b (I1 & I2 & I3). unfold arb_ok.
+  rewrite thr_push, sys_push. split; auto. now apply AInv_push_stop.
+Qed.
+
+Lemma iter_fields : forall m a, a_pre (Nat.iter m (push Stop) a) = a_pre a /\ ph (Nat.iter m (push Stop) a) = ph a.
+Proof.
+  induction m as [|m IH]; intros a; [auto|]. cbn [Nat.iter nat_rect]. rewrite pre_push, ph_push. apply IH.
+Qed.
+
+Lemma GInv_sys : forall s, GInv s -> GInv (step s LSys).
+Proof.
+  intros s G. cbn [step]. unfold sys_step. destruct (alive s) eqn:A; auto.
+  destruct (sysq s) as [|[c|j|j] q] eqn:Q; auto; destruct G as [G1 G2 G3 G4 G5 G6 G7 G8].
+  - (* Exit *)
+    constructor; cbn; auto.
+    + intros k a H. rewrite stop_all_nth in H. destruct (nth_error (arbs s) k) as [a0|] eqn:E; [|discriminate].
+      inversion H. apply arb_ok_iter. auto.
+    + intros Hi. destruct (G2 Hi) as (_ & _ & B). rewrite Q in B. discriminate.
+    + congruence.
+    + now rewrite A in *.
+    + intros k a H. rewrite stop_all_nth in H. destruct (nth_error (arbs s) k) as [a0|] eqn:E; [|discriminate].
+      inversion H. intros Hp. destruct (iter_fields (count_occ Nat.eq_dec (reg s) k) a0) as [F1 F2].
+      rewrite F1 in Hp. rewrite F2. specialize (G5 k a0 E Hp). rewrite Q in G5. cbn in G5.
+      destruct G5 as [D|[[I|[]] N]]; [left; auto | right; split; [left; auto | intros X; apply N; right; auto]].
+    + intros k a H Hp Hi. left. rewrite stop_all_nth in H.
+      destruct (nth_error (arbs s) k) as [a0|] eqn:E; [|discriminate]. inversion H.
+      destruct (iter_fields (count_occ Nat.eq_dec (reg s) k) a0) as [F1 F2]. rewrite <- H1, F1 in Hp.
+      destruct (G6 k a0 E Hp Hi) as [D|(_ & D2 & _)]; [now apply stopping_iter|].
+      specialize (G5 k a0 E Hp). rewrite Q in G5. cbn in G5. destruct G5 as [D|[[I|[]] N]].
+      * left. rewrite F2. congruence.
+      * apply stopping_iter_pos. now apply count_occ_In.
+    + intros j0 Hj. rewrite stop_all_length. apply G8. rewrite Q. right. auto.
+  - (* Register *)
+    constructor; cbn; auto.
+    + intros Hi. destruct (G2 Hi) as (B1 & B2 & B3). rewrite Q in B3. cbn in B3. auto.
+    + congruence.
+    + now rewrite A in *.
+    + intros k a H Hp. specialize (G5 k a H Hp). rewrite Q in G5. cbn in G5.
+      destruct G5 as [D|[I N]]; auto. right. split; [|intros X; apply N; right; auto].
+      destruct (Nat.eq_dec k j) as [->|ND]; [left; left; auto|].
+      destruct I as [I|[I|I]]; [left; right; apply in_remove_nat; auto | congruence | right; auto].
+    + intros k a H Hp Hi. destruct (G6 k a H Hp Hi) as [D|(D1 & D2 & D3)]; [left; auto|]. right.
+      rewrite Q in D3. cbn in *. auto.
+    + intros j0 Hj. apply G8. rewrite Q. right. auto.
+  - (* Deregister *)
+    constructor; cbn; auto.
+    + intros Hi. destruct (G2 Hi) as (B1 & B2 & B3). rewrite Q in B3. cbn in B3. auto.
+    + congruence.
+    + now rewrite A in *.
+    + intros k a H Hp. specialize (G5 k a H Hp). rewrite Q in G5. cbn in G5.
+      destruct G5 as [D|[I N]]; auto. right. split; [|intros X; apply N; right; auto].
+      assert (k <> j) by (intros ->; apply N; left; auto).
+      destruct I as [I|[I|I]]; [left; apply in_remove_nat; auto | discriminate | right; auto].
+    + intros k a H Hp Hi. destruct (G6 k a H Hp Hi) as [D|(D1 & D2 & D3)]; [left; auto|]. right.
+      rewrite Q in D3. cbn in *. auto.
+    + intros j0 Hj. apply G8. rewrite Q. right. auto.
+Qed.
+
+(* ---------- the coordinator ---------- *)
+Lemma GInv_bump : forall s r ops', GInv s -> GInv (with_op s r ops' (arbs s) (sysq s) (issued s)).
+Proof.
+  intros s r ops' G. eapply (GInv_local s _ 0 (fun x => x)); eauto; try reflexivity;
+    try (symmetry; apply upd_id).
+  - cbn. rewrite app_length. cbn. rewrite (g_pc _ G). lia.
+  - intros. apply local_ok_refl. cbn. lia.
+  - cbn. lia.
+Qed.
+
+Lemma GInv_send_op : forall s ops' k c,
+  (forall a, local_ok (pc s) (S (pc s)) a (push c a)) ->
+  GInv s -> GInv (send_op s ops' k c).
+Proof.
+  intros s ops' k c LO G. unfold send_op. destruct (rx_alive k (arbs s)); [|now apply GInv_bump].
+  eapply (GInv_local s _ k (push c)); eauto; try reflexivity.
+  - cbn. rewrite app_length. cbn. rewrite (g_pc _ G). lia.
+  - cbn. lia.
+Qed.
+
+Lemma GInv_wait_op : forall s ops' c r, GInv s -> GInv (wait_op s ops' c r).
+Proof.
+  intros. unfold wait_op. destruct c; [now apply GInv_bump|]. destruct (quiescent s); auto. now apply GInv_bump.
+Qed.
+
+Lemma GInv_new : forall s ops', GInv s ->
+  GInv (with_op s RUnit ops' (arbs s ++ [mkArb [] [] Running [] (2 + length (arbs s)) 0 (negb (issued s)) []])
+               (sys_send (Register (length (arbs s))) s) (issued s)).
+Proof.
+  intros s ops' [G1 G2 G3 G4 G5 G6 G7 G8]. constructor; cbn; auto.
+  - intros k a H. apply nth_snoc in H as [[L H]|[-> ->]].
+    + destruct (G1 k a H) as (I1 & I2 & I3). split; [eapply AInv_mono; [|eauto]; lia | auto].
+    + split; [apply AInv_new | auto].
+  - intros Hi. destruct (G2 Hi) as (A1 & A2 & A3). repeat split; auto.
+    unfold sys_send. rewrite A1. cbv iota. unfold has_exit in *. rewrite existsb_app, A3. reflexivity.
+  - intros k a H. apply nth_snoc in H as [[L H]|[-> ->]].
+    + apply reg_ok_sys_send; auto. discriminate.
+    + intros Hp. cbn in Hp. apply negb_true_iff in Hp. destruct (G2 Hp) as (A1 & A2 & A3).
+      right. unfold sys_send. rewrite A1. split.
+      * right. apply pre_exit_snoc_new; auto.
+      * intros X. apply in_app_or in X as [X|[X|[]]]; [|discriminate]. specialize (G8 _ X). lia.
+  - intros k a H Hp Hi. apply nth_snoc in H as [[L H]|[-> ->]].
+    + destruct (G6 k a H Hp Hi) as [D|(D1 & D2 & D3)]; [left; auto|]. right. repeat split; auto.
+      cbn. unfold sys_send. rewrite D1. cbv iota. unfold has_exit in *. rewrite existsb_app, D3. reflexivity.
+    + cbn in Hp. rewrite Hi in Hp. discriminate.
+  - rewrite app_length. cbn. lia.
+  - intros j Hj. rewrite app_length. cbn.
+    destruct (sys_send_cases (Register (length (arbs s))) s) as [[_ Es]|[_ Es]]; rewrite Es in Hj.
+    + apply in_app_or in Hj as [Hj|[Hj|[]]]; [specialize (G8 _ Hj); lia | discriminate].
+    + specialize (G8 _ Hj). lia.
+Qed.
+
+Lemma GInv_coord : forall s, GInv s -> GInv (step s LCoord).
+Proof.
+  intros s G. cbn [step]. unfold coord. destruct (rest s) as [|o ops']; auto.
+  destruct o as [|k kd|k|c| |k|k|k i].
+  - now apply GInv_new.
+  - apply GInv_send_op; auto. intros. apply local_ok_push_exec.
+  - apply GInv_send_op; auto. intros. eapply local_ok_trans; [apply local_ok_push_stop | apply local_ok_refl; lia].
+  - eapply (GInv_local_send s _ 0 (fun x => x) (Exit c)); eauto; try reflexivity;
+      try (symmetry; apply upd_id); try (intros j Hj; discriminate).
+    + cbn. now rewrite orb_true_r.
+    + cbn. rewrite app_length. cbn. rewrite (g_pc _ G). lia.
+    + intros. apply local_ok_refl. cbn. lia.
+    + cbn. lia.
+  - now apply GInv_wait_op.
+  - now apply GInv_wait_op.
+  - now apply GInv_bump.
+  - now apply GInv_wait_op.
+Qed.
+
+Theorem GInv_step : forall s l, GInv s -> GInv (step s l).
+Proof.
+  intros s [| k | k | | | k] G.
+  - now apply GInv_coord.
+  - now apply GInv_runner.
+  - now apply GInv_task.
+  - now apply GInv_sys.
+  - now apply GInv_sysret.
+  - now apply GInv_drop.
+Qed.
+
+Lemma fold_step_inv : forall (P : st -> Prop), (forall s l, P s -> P (step s l)) ->
+  forall sched s, P s -> P (fold_left step sched s).
+Proof. intros P H. induction sched as [|l t IH]; intros s Ps; cbn; auto. Qed.
+
+Theorem GInv_run : forall ops sched, GInv (run ops sched).
+Proof. intros. unfold run. apply fold_step_inv; [apply GInv_step | apply GInv_init]. Qed.
